@@ -704,6 +704,24 @@ func (e *SpecEnv) evalCall(x *SCall) Val {
 			}
 			k = e.coerce(k, mt.Key())
 			return Val{T: boolT, S: fmt.Sprintf("(and (not (= %s 0)) (select (select %s %s) %s))", m.S, e.st.get(c.so.heapMapDom(mt.Key(), mt.Elem())), m.S, c.termOf(k))}
+		case "ptrof": // ptrof(ifaceValue, *T): the pointer an interface value holds (meaningful when typeis(ifaceValue, *T))
+			v := e.eval(x.Args[0])
+			t := e.lookupType(x.Args[1].String())
+			return Val{T: t, S: fmt.Sprintf("(i_val %s)", v.S)}
+		case "visited": // visited(k): key k has already been yielded by the function's map-range loop
+			rng := c.lastMapRange
+			if rng == nil || e.f == nil || e.st == nil {
+				e.fail("visited() needs a map range loop in the function")
+			}
+			mt := rng.X.Type().Underlying().(*types.Map)
+			k := e.coerce(e.eval(x.Args[0]), mt.Key())
+			return Val{T: boolT, S: fmt.Sprintf("(select %s %s)", e.st.get(e.f.visitedKey(rng, mt)), c.termOf(k))}
+		case "asiface": // the interface value holding the pointer x (as an implicit Go conversion would build it)
+			v := e.eval(x.Args[0])
+			if !isPointerLike(v.T) {
+				e.fail("asiface needs a pointer")
+			}
+			return Val{T: types.NewInterfaceType(nil, nil), S: fmt.Sprintf("(mk_iface %d %s)", c.typeID(v.T), c.termOf(v))}
 		case "bytestr": // the one-byte string consisting of byte b
 			b := e.coerce(e.eval(x.Args[0]), types.Typ[types.Byte])
 			if _, _, ok := intInfo(b.T); !ok {
